@@ -7,7 +7,7 @@ import subprocess
 ROOT = os.path.dirname(os.path.abspath(__file__))
 SRC = os.path.join(ROOT, "build", "native-src")
 TARGET = os.path.join(ROOT, "build", "native-target")
-ORACLES = {"c14_jet_codes_replay": "jets_native.rs", "c16_policy_sort_replay": "policy_native.rs", "c02_codec_replay": "codec_native.rs", "c09_cmr_replay": "cmr_native.rs", "c19_budget_replay": "budget_native.rs", "c11_value_order_replay": "value_native.rs", "c18_dag_replay": "dag_native.rs", "c05_machine_semantics_replay": "machine_native.rs", "c13_natural_replay": "natural_native.rs"}
+ORACLES = {"c14_jet_codes_replay": "jets_native.rs", "c16_policy_sort_replay": "policy_native.rs", "c16_policy_roots_replay": "policy_roots_native.rs", "c02_codec_replay": "codec_native.rs", "c09_cmr_replay": "cmr_native.rs", "c19_budget_replay": "budget_native.rs", "c11_value_order_replay": "value_native.rs", "c18_dag_replay": "dag_native.rs", "c05_machine_semantics_replay": "machine_native.rs", "c13_natural_replay": "natural_native.rs"}
 
 
 # oracles that need the library's debug assertions (built in the dev profile)
@@ -18,6 +18,7 @@ BOUNDS = {
                         "every combinator tree of depth <= 2 over iden/unit/witness/fail/word/jet leaves encoded and decoded again; six redemption programs with witnesses of types 1, 1x1, 2^8x2^8, (A+B)xC, 2^64x2^64 "
                         "round-tripped with every decoded witness checked against its node's target type",
     "c14_jet_codes_replay": "all 1267 jets, three continuations each; all 24-bit inputs per family",
+    "c16_policy_roots_replay": "4105 policies: 10 leaves (trivial, unsatisfiable, after/older at and just past the environment's lock times, sha256 and key with and without preimage/signature), all and/or/threshold(1,2) nodes over pairs, single-child thresholds, a sample of 3-child thresholds with k = 0..3, and a sample of depth-2 combinations; one environment",
     "c16_policy_sort_replay": "all policies of nesting depth <= 2 over After(1..3) leaves (and/or/threshold)",
     "c05_machine_semantics_replay": "jet-free programs: every combinator over word/iden/unit leaves to depth 2, composed pairwise (comp) and under a word-selected case; up to 4 input values each; debug assertions on",
     "c13_natural_replay": "numbers 1..=70000 and 2^p-2..2^p+2 for p <= 31 (encode, decode, bound); every 24-bit string (decode, re-encode)",
